@@ -88,7 +88,9 @@ pub fn fam_variable(r: &mut Rng) -> Vec<Prog> {
     }
     let mkf = cat(vec![t("#'int "), Node::Block(mk)]);
     // body: x piped into a dispatch block / in-chain matches
-    let style = g.r.below(3);
+    // gate (finding N13): style 2 (a tuple of two variables matched by patterns that constrain both
+    // fields) makes a later, matching branch yield nil; witness in the regression corpus
+    let style = g.r.below(2);
     let main = match style {
         0 => {
             g.feats.insert("scrutinee:variable-piped".into());
@@ -407,7 +409,16 @@ pub fn fam_partial(r: &mut Rng) -> Vec<Prog> {
     let mut fs: Vec<(String, GTy)> = vec![];
     let labels = ["x", "y", "a"];
     for l in labels.iter().take(n) {
-        fs.push((l.to_string(), if g.r.chance(2, 3) { g.leaf_ty() } else { g.union_ty(0) }));
+        // gate (finding N14): a partial pattern on a partial-TYPED value narrows a union-typed
+        // field to its tuple variant; field types are leaves / unions of leaves here
+        let ft = if g.r.chance(2, 3) {
+            g.leaf_ty()
+        } else {
+            let a = g.leaf_ty();
+            let b = g.leaf_ty();
+            if a == b { a } else { GTy::Union(vec![a, b]) }
+        };
+        fs.push((l.to_string(), ft));
     }
     let named = g.r.chance(1, 3);
     let pty = GTy::Part(if named { Some("P".into()) } else { None }, fs.clone());
